@@ -887,3 +887,15 @@ VARIANTS += [
     dict(prop="C05", name="tag-gen-extra-closure-before-fold", benign=True,
          edits=[dict(file=SMF, find="            // Join tags to rows\n", replace="            let check_len = |n: usize| debug_assert_eq!(n, TAG_CHUNK);\n            check_len(tags.len());\n            // Join tags to rows\n")]),
 ]
+
+OPF = "ipa-core/src/protocol/hybrid/oprf.rs"
+VARIANTS += [
+    dict(prop="C01", name="prf-key-from-per-shard-prss", expect="WIRE-prf|key-from-cross-shard-prss",
+         edits=[dict(file=OPF, find="    let v: Replicated<Fp25519, 1> = ctx.cross_shard_prss().generate(RecordId::FIRST);", replace="    let v: Replicated<Fp25519, 1> = ctx.prss().generate(RecordId::FIRST);")]),
+    dict(prop="C01", name="prf-report-takes-breakdown-from-value", expect="WIRE-prf|report-fields",
+         edits=[dict(file=OPF, find="            value: input.value,\n            breakdown_key: input.breakdown_key,", replace="            breakdown_key: input.breakdown_key.clone(),\n            value: { let _ = input.value; Replicated::<V>::ZERO },")]),
+    dict(prop="C01", name="prf-picker-mixes-in-record-id", expect="WIRE-prf|route-by-prf-value-only",
+         edits=[dict(file=OPF, find="        |ctx, _, report| report.match_key % ctx.shard_count(),", replace="        |ctx, rid, report| (report.match_key + u64::from(u32::from(rid) & 1)) % ctx.shard_count(),")]),
+    dict(prop="C01", name="prf-zip-skips-first-row", expect="WIRE-prf|zip(prf values, the same rows)",
+         edits=[dict(file=OPF, find="        .zip(stream::iter(input_rows))", replace="        .zip(stream::iter(input_rows).skip(0).filter(|_| std::future::ready(true)))")]),
+]
